@@ -171,6 +171,39 @@ def signal_loop(n_limit: int, c0: int, kind: str = "counter", open_: bool = True
     return {"spec": spec, "inputs": inputs, "ref": ref, "template": f"signal({kind},open={open_},observers={observers})"}
 
 
+def lagged_signal_loop(n_limit: int, c0: int, gate: str = "route", name: str = "lag"):
+    """The loop state the gate reads changes one step BEFORE the end-of-iteration signal is emitted:
+    a(count)->tmp [the gate's target], b(tmp)->count, c(count)->log emitting 'done', gate(count) waiting for 'done'.
+    Between the update of `count` and the signal the gate's previous decision is stale and must not let `a` start
+    another pass. Sequential form (default-open gate: `a` runs once before any decision; `c` and the gate also see
+    the seeded count once):  log = c(count); gate(count)  -- no effect, `a` is not stale --
+                             do: tmp = a(count); count = b(tmp); log = c(count); while gate(count)."""
+    nodes = [
+        {"k": "fn", "name": "a", "params": [{"n": "count"}], "outs": ["tmp"], "beh": ["inc", "count"]},
+        {"k": "fn", "name": "b", "params": [{"n": "tmp"}], "outs": ["count"], "beh": ["inc", "tmp"]},
+        {"k": "fn", "name": "c", "params": [{"n": "count"}], "outs": ["log"], "emit": ["done"], "beh": ["mark", "count", "c"]},
+    ]
+    if gate == "route":
+        nodes.append({"k": "route", "name": "gate", "params": [{"n": "count"}], "targets": ["a", "END"], "wait": ["done"], "cond": ["lt", "count", n_limit], "then": "a", "else": "END", "open": True})
+    else:
+        nodes.append({"k": "ifelse", "name": "gate", "params": [{"n": "count"}], "t": "a", "f": "END", "wait": ["done"], "cond": ["lt", "count", n_limit], "open": True})
+    inputs = {"count": c0}
+    trace = [("c", {"log": ("c", c0)}), ("gate", {})]
+    c = c0
+    while True:
+        t = c + 1
+        trace.append(("a", {"tmp": t}))
+        c = t + 1
+        trace.append(("b", {"count": c}))
+        trace.append(("c", {"log": ("c", c)}))
+        trace.append(("gate", {}))
+        if not c < n_limit:
+            break
+    vals = _fold(inputs, trace)
+    ref = {"trace": None, "values": vals, "counts": _counts(trace), "singleton_steps": False, "steps": len(trace)}
+    return {"spec": {"name": name, "nodes": nodes, "bind": {}}, "inputs": inputs, "ref": ref, "template": f"lagged-signal({gate})"}
+
+
 def nested_loop(n_limit: int, c0: int, body_len: int = 1, gate: str = "route", depth: int = 1):
     """T7: the counter loop wrapped as a nested graph inside a DAG: pre -> [loop] -> post."""
     inner = counter_loop(n_limit, c0 + 1, body_len, gate, name="inner")
@@ -204,9 +237,11 @@ def nested_loop(n_limit: int, c0: int, body_len: int = 1, gate: str = "route", d
 
 def gen_loop(rng):
     """Random template instance."""
-    t = rng.choice(["counter", "counter", "counter", "acc", "signal", "signal", "nested", "entry", "twoacc"])
+    t = rng.choice(["counter", "counter", "counter", "acc", "signal", "signal", "nested", "entry", "twoacc", "lagged"])
     n = rng.randint(0, 7)
     c0 = rng.randint(0, 3)
+    if t == "lagged":
+        return lagged_signal_loop(n, c0, rng.choice(["route", "ifelse"]))
     if t == "counter":
         # exit node names that merely EXTEND the body node's name (a decision must be matched as a whole name)
         return counter_loop(n, c0, rng.randint(1, 3), rng.choice(["route", "ifelse"]), rng.random() < 0.5, rng.random() < 0.7, exit_name=rng.choice(["done", "b0_done", "b0x"]))
